@@ -41,6 +41,11 @@ def gen_operand(rng, kind=None, fam=None, base=None, aware=None):
         vals = [round(rng.uniform(0.5, 300), 3) for _ in range(n)]           # strictly positive at every hour
     elif flavour < 0.25:
         vals = [float(rng.randint(-9, 9)) for _ in range(n)]                 # whole numbers of both signs
+    elif flavour < 0.33:
+        # whole numbers given as Python ints (what a user types: [1, 2, 4, 5]): the series keeps an integer dtype
+        vals = [rng.randint(1, 12) * rng.choice([1, 1, -1]) for _ in range(n)]
+        return {"k": "h", "start": start, "vs": vals, "u": unit, "fam": fam, "int": True,
+                "aware": rng.random() < 0.5 if aware is None else aware}
     return {"k": "h", "start": start, "vs": vals, "u": unit, "fam": fam,
             "aware": rng.random() < 0.5 if aware is None else aware}
 
@@ -55,6 +60,12 @@ def build_real(op):
     if op.get("gap"):
         # an hour missing in the middle (what convert_to_utc produces at a fall-back transition)
         idx = pd.DatetimeIndex([t + timedelta(hours=1 if i >= op["gap"] else 0) for i, t in enumerate(idx)])
+    if op.get("int") and not op.get("gap") and all(isinstance(v, int) for v in op["vs"]):
+        from efootprint.builders.time_builders import create_hourly_usage_df_from_list
+        df = create_hourly_usage_df_from_list([int(v) for v in op["vs"]], t0, u(op["u"]).units)
+        if op["aware"]:
+            df.index = df.index.tz_localize("UTC")
+        return ExplainableHourlyQuantities(df, "operand")
     df = pd.DataFrame({"value": pint_pandas.PintArray(np.array(op["vs"], dtype=float), dtype=u(op["u"]).units)}, index=idx)
     return ExplainableHourlyQuantities(df, "operand")
 
@@ -230,6 +241,16 @@ def expected_by_law(case, before):
             return ("raise",)
         keys = sorted(set(pa) | set(pb))
         return ("ok", "h", dim, {k: pa.get(k, 0) * pb.get(k, 0) for k in keys})
+    if opn == "div" and ka in ("q", "h") and kb in ("q", "h") and not (ka == "h" and kb == "h"):
+        # quotient of a scalar and a series (either way) or of two scalars, where no divisor is zero
+        dim = tuple(x - y for x, y in zip(da, db))
+        if kb == "q":
+            if pb == 0:
+                return None
+            return ("ok", "q", dim, pa / pb) if ka == "q" else ("ok", "h", dim, {k: v / pb for k, v in pa.items()})
+        if any(v == 0 for v in pb.values()):
+            return None
+        return ("ok", "h", dim, {k: pa / v for k, v in pb.items()})
     if opn == "to" and ka != "e":
         _, dim_t = realsys.unit_info(case["extra"]["unit"])
         if tuple(dim_t) != da:
